@@ -71,6 +71,40 @@ func Walk(v interface{}, comps []string, fan bool) []Branch {
 	return []Branch{{V: Missing, FanOut: fan}}
 }
 
+// crossesNestedArray reports whether resolving comps on v passes through an
+// array (at a non-terminal position) that holds an array. The agreement domain
+// of the reference excludes such paths ("arrays hold scalars or documents but
+// not arrays"): MongoDB descends into a nested array only at a matching
+// positional offset, other engines descend into every element.
+func crossesNestedArray(v interface{}, comps []string) bool {
+	if len(comps) == 0 {
+		return false
+	}
+	switch x := v.(type) {
+	case bson.D:
+		if c, ok := get(x, comps[0]); ok {
+			return crossesNestedArray(c, comps[1:])
+		}
+	case bson.A:
+		for _, e := range x {
+			if _, ok := e.(bson.A); ok {
+				return true
+			}
+		}
+		if idx, ok := isIndex(comps[0]); ok && idx < len(x) {
+			if crossesNestedArray(x[idx], comps[1:]) {
+				return true
+			}
+		}
+		for _, e := range x {
+			if ed, ok := e.(bson.D); ok && crossesNestedArray(ed, comps) {
+				return true
+			}
+		}
+	}
+	return false
+}
+
 // cands expands terminal arrays: element values plus the array itself.
 func cands(bs []Branch) []interface{} {
 	var out []interface{}
@@ -216,6 +250,9 @@ func matchField(root interface{}, path string, cond interface{}) (bool, error) {
 }
 
 func matchOp(root interface{}, path, op string, operand interface{}) (bool, error) {
+	if crossesNestedArray(root, strings.Split(path, ".")) {
+		return false, ErrOutside
+	}
 	bs := Walk(root, strings.Split(path, "."), false)
 	fan := hasFan(bs)
 	switch op {
